@@ -10,7 +10,7 @@ for d in seeded/C*; do
   [ -d "$d" ] || continue
   [ $first = 1 ] || echo "," >> $OUT.tmp
   first=0
-  timeout 3600 tools/try_seeded.py "$d" --tier "$TIER" >> $OUT.tmp 2>/dev/null
+  timeout 3600 tools/try_seeded.py "$d" --tier "$TIER" $SEEDED_ARGS >> $OUT.tmp 2>/dev/null
 done
 echo "]" >> $OUT.tmp
 mv $OUT.tmp $OUT
